@@ -485,6 +485,30 @@ def _string_worker(_):
                     acc.violation('opaque:%s:wrong_member' % c.__name__, '%r decodes to %s' % (m.value.code, got.name), w)
                 elif hasattr(got, 'compose') and bytes(got.compose()) != wire:
                     acc.violation('opaque:%s:compose' % c.__name__, '%s composes to different bytes' % m.name, w)
+                # names that are NOT members - the member's name with one stray octet (a letter, a byte that is no
+                # valid UTF-8, NUL) before, inside and after it - must never decode to the member: rejected, or (in
+                # list containers) preserved verbatim
+                members_by_code = {x.value.code: x for x in c.get_enum_class()}
+                for pos in sorted({0, len(code) // 2, len(code)}):
+                    for stray in (b'x', b'\xff', b'\x80', b'\xc3', b'\x00', b' '):
+                        name = code[:pos] + stray + code[pos:]
+                        if len(name) > 255:
+                            continue
+                        try:
+                            if name.decode(c.get_encoding()) in members_by_code:
+                                continue
+                        except UnicodeDecodeError:
+                            pass
+                        acc.count('transitions')
+                        w2 = {'kind': 'opaque', 'enum': classes.qualname(c), 'text': m.value.code, 'wire_name': name}
+                        try:
+                            got2 = c.parse_exact_size(bytes((len(name),)) + name)
+                        except doc:
+                            continue
+                        except Exception:  # noqa (C02)
+                            continue
+                        acc.violation('opaque:%s:unknown_mapped' % c.__name__, 'the name %r, which is no member, decodes '
+                                      'to %s' % (name, getattr(got2, 'name', got2)), w2)
             acc.state(core.h64('opq', classes.qualname(c)))
     # SSH name-lists: every member alone / first of two / unknown names preserved
     from cryptoparser.ssh import subprotocol as ssp
